@@ -4,6 +4,7 @@ from typing import Any
 from liquid import Markup
 from liquid import escape
 from liquid import soft_str
+from liquid.exceptions import LiquidValueError
 
 
 def to_liquid_string(val: Any, autoescape: bool) -> str:
@@ -22,7 +23,11 @@ def to_liquid_string(val: Any, autoescape: bool) -> str:
     elif isinstance(val, range):
         val = f"{val.start}..{val.stop - 1}"
     else:
-        val = str(val)
+        try:
+            val = str(val)
+        except ValueError as err:
+            # An integer with more digits than the int/str conversion limit.
+            raise LiquidValueError(str(err), token=None) from err
 
     if autoescape:
         val = escape(val)
